@@ -240,6 +240,48 @@ impl Totality {
                         push_v(&mut out, sig, detail);
                     }
                 }
+                // sampled pairs of single faults (a structural character inserted or removed at one
+                // place AND a truncation / deletion / insertion elsewhere)
+                if !names.is_empty() {
+                    let mut singles: Vec<Fault> = vec![];
+                    let mut structural: Vec<Fault> = vec![];
+                    enumerate_faults(&enc, &SUBST_CHARS, &INSERT_CHARS, &mut |f, _| {
+                        let is_struct = matches!(f.ch, Some(']') | Some(',') | Some(';') | Some('=') | Some('"'))
+                            || f.kind == "delete"
+                            || f.kind == "truncate";
+                        if is_struct && structural.len() < 6000 {
+                            structural.push(f.clone());
+                        }
+                        if singles.len() < 6000 {
+                            singles.push(f.clone());
+                        }
+                    });
+                    for _ in 0..500 {
+                        if structural.is_empty() || singles.is_empty() {
+                            break;
+                        }
+                        let a = &structural[r.below(structural.len() as u64) as usize];
+                        let b = if r.chance(1, 2) {
+                            &structural[r.below(structural.len() as u64) as usize]
+                        } else {
+                            &singles[r.below(singles.len() as u64) as usize]
+                        };
+                        // apply the later position first so that the earlier one stays valid
+                        let (first, second) = if a.at >= b.at { (a, b) } else { (b, a) };
+                        let m = apply_fault(&apply_fault(&enc, first), second);
+                        for n in &names {
+                            let p = parser_by_name(n).unwrap();
+                            out.inner_evals += 1;
+                            *faults.entry("pair_of_faults").or_insert(0) += 1;
+                            if let Some((sig, detail)) = call_parser(&hooks, n, p, &m) {
+                                if let Some(c) = collect.as_deref_mut() {
+                                    c.push((sig.clone(), n.to_string(), m.clone()));
+                                }
+                                push_v(&mut out, sig, detail);
+                            }
+                        }
+                    }
+                }
                 for n in names {
                     let p = parser_by_name(n).unwrap();
                     enumerate_faults(&enc, &SUBST_CHARS, &INSERT_CHARS, &mut |f, m| {
@@ -784,8 +826,9 @@ fn structural_edits(text: &str, r: &mut Rng) -> Vec<(&'static str, String)> {
                         Value::from(if side == "BUY" { "buy" } else { "sell" });
                     out.push(("side_alias_spelling", c.to_string()));
                 }
+                let new_tif = if body["time_in_force"] == Value::from("IOC") { "DAY" } else { "IOC" };
                 let mut c = v.clone();
-                c["snapshot"]["orders"][i][variant]["time_in_force"] = Value::from("IOC");
+                c["snapshot"]["orders"][i][variant]["time_in_force"] = Value::from(new_tif);
                 out.push(("change_tif", c.to_string()));
                 // another variant with the same body
                 for other in ["Standard", "PostOnly", "MarketToLimit"] {
@@ -912,6 +955,21 @@ impl Tamper {
             let end_b = text[start_b..].find('"').map(|e| start_b + e).unwrap_or(text.len());
             (text[..start_b].chars().count(), text[..end_b].chars().count())
         });
+        // char spans of the digits of the price and of the three stored aggregates: any edit inside
+        // them changes a checksummed number (or breaks the JSON)
+        let mut num_spans: Vec<(usize, usize)> = vec![];
+        for key in ["\"price\":", "\"visible_quantity\":", "\"hidden_quantity\":", "\"order_count\":"] {
+            if let Some(b) = text.find(key) {
+                let start_b = b + key.len();
+                let end_b = text[start_b..]
+                    .find(|c: char| !c.is_ascii_digit())
+                    .map(|e| start_b + e)
+                    .unwrap_or(text.len());
+                if end_b > start_b {
+                    num_spans.push((text[..start_b].chars().count(), text[..end_b].chars().count()));
+                }
+            }
+        }
         // every single-position fault
         let mut singles: Vec<Fault> = vec![];
         enumerate_faults(text, &C09_SUBST, &C09_INSERT, &mut |f, m| {
@@ -938,9 +996,19 @@ impl Tamper {
                 },
                 None => false,
             };
+            let in_number = num_spans.iter().any(|(a, b)| match f.kind.as_str() {
+                "delete" | "subst" | "bitflip" => f.at >= *a && f.at < *b,
+                "swap" => f.at >= *a && f.at + 1 < *b,
+                "insert" => f.at > *a && f.at < *b,
+                _ => false,
+            });
             if in_checksum {
                 *faults.entry("checksum_digit_damaged").or_insert(0) += 1;
             }
+            if in_number {
+                *faults.entry("header_number_damaged").or_insert(0) += 1;
+            }
+            let in_checksum = in_checksum || in_number;
             let v = judge(&orig_level, &orig_seq, m, f.kind == "truncate" || in_checksum, &mut st);
             push(&mut out, v);
             if singles.len() < 4000 {
@@ -952,9 +1020,24 @@ impl Tamper {
         for (k, m) in structural_edits(text, &mut r) {
             out.inner_evals += 1;
             *faults.entry(k).or_insert(0) += 1;
+            // every edit that alters the price, a field of an order, the number or sequence of
+            // the orders, a stored aggregate, the version or the checksum must be reported as an
+            // error - also by an implementation that would "repair" it on the way in
             let must_fail = matches!(
                 k,
-                "checksum_truncated" | "checksum_empty" | "checksum_one_nibble" | "change_version"
+                "checksum_truncated"
+                    | "checksum_empty"
+                    | "checksum_one_nibble"
+                    | "change_version"
+                    | "swap_orders"
+                    | "reverse_orders"
+                    | "drop_order"
+                    | "duplicate_order"
+                    | "edit_number"
+                    | "shift_digits_between_numbers"
+                    | "flip_side"
+                    | "change_tif"
+                    | "change_order_type"
             );
             let v = judge(&orig_level, &orig_seq, &m, must_fail, &mut st);
             push(&mut out, v);
@@ -1202,7 +1285,23 @@ impl Check for Tamper {
             cands.extend(structural_edits(p, &mut r).into_iter().map(|x| x.1));
             for m in cands {
                 attempts += 1;
-                let o = self.run_package(p, seed, Some(&m));
+                // "accepted although it had to be rejected": any successful restore of a text that
+                // differs from the original counts when that is the signature looked for
+                let o = if sig == "C09/damaged-package-accepted" {
+                    let mut o = RunOut::default();
+                    let ok = guarded(|| PriceLevel::from_snapshot_json(&m).is_ok()).unwrap_or(false);
+                    if ok && m != *p {
+                        o.violations.push(Violation {
+                            prop: "C09".into(),
+                            sig: sig.to_string(),
+                            at: 0,
+                            detail: String::new(),
+                        });
+                    }
+                    o
+                } else {
+                    self.run_package(p, seed, Some(&m))
+                };
                 if o.violations.iter().any(|v| v.sig == sig) {
                     found = Some(m);
                     break;
